@@ -31,3 +31,33 @@ def register(mut):
                 if (size() > 5 && x == *(end()-1)) continue;
                 coro_queue::instance->push(std::coroutine_handle<>::from_address(x));
             }''', ['C06'])
+    mut('queue-push-enqueues-while-consumer-waits', 'queue.h',
+        '''        std::unique_lock lk(_mx);
+        if (!_awaiters.empty()) {
+            promise<T> p = std::move(_awaiters.front());''',
+        '''        std::unique_lock lk(_mx);
+        if (!_awaiters.empty() && _awaiters.size() < 2) {
+            promise<T> p = std::move(_awaiters.front());''', ['C09'])
+    mut('queue-void-pop-saturates-wrong', 'queue.h',
+        '''        void pop() {_sz = std::max<std::size_t>(1, _sz)-1;}''',
+        '''        void pop() {_sz = std::max<std::size_t>(2, _sz)-2;}''', ['C09'])
+    mut('limited-limit-off-by-one', 'queue.h',
+        '''        } else if (this->_queue.size() >= _limit) {''',
+        '''        } else if (this->_queue.size() > _limit) {''', ['C10'])
+    mut('limited-pop-completes-before-moving', 'queue.h',
+        '''                    auto front = std::move(_blocked.front());
+                    this->_queue.push(std::move(front.first));
+                    auto p = std::move(front.second);
+                    _blocked.pop();''',
+        '''                    auto front = std::move(_blocked.front());
+                    auto p = std::move(front.second);
+                    _blocked.pop();''', ['C10'])
+    mut('limited-unblock-push-newest', 'queue.h',
+        '''        auto front = std::move(_blocked.front());
+        _blocked.pop();
+        lk.unlock();
+        return front.second.set_exception(e);''',
+        '''        auto front = std::move(_blocked.back());
+        { decltype(_blocked) tmp; while (_blocked.size() > 1) { tmp.push(std::move(_blocked.front())); _blocked.pop(); } _blocked = std::move(tmp); }
+        lk.unlock();
+        return front.second.set_exception(e);''', ['C10'])
